@@ -156,7 +156,7 @@ def gen_key_ast(rng):
     k = {"method": rng.choice(["AES-128", "AES-128", "SAMPLE-AES"]), "uri": rng.choice(["k1", "https://keys/1", "skd://x,y=z", "日本"])}
     if rng.random() < 0.4:
         k["iv"] = rng.choice([0, 1, 2 ** 128 - 1, rng.getrandbits(128)])
-    f = rng.choice(G.KEYFORMATS)
+    f = G.pick_keyformat(rng)
     if f is not None:
         k["format"] = f
     if rng.random() < 0.3:
